@@ -142,6 +142,7 @@ type c06Inj struct {
 	helperOps    int // attributed operations on goroutines other than the request goroutine
 	unattributed int
 	returned     chan struct{}
+	atReturn     map[string]bool // raw records at the moment the request returned, if something it started was still in flight
 }
 
 // newC06Inj opens the window of a request that is about to start on goroutine g (the calling goroutine). Every
@@ -667,4 +668,49 @@ func (w *c06World) leftovers(before map[string]bool, failed bool) (sig, msg stri
 	}
 	sort.Slice(rem, func(i, j int) bool { return rem[i].Key < rem[j].Key })
 	return "", "", rem
+}
+
+// durableAtReturn: the lease record of what the client received existed in storage at the moment the request returned
+// (atReturn; nil = nothing of the request was in flight then, the state after the request is the state at return).
+func (w *c06World) durableAtReturn(r rr, atReturn map[string]bool) (string, string) {
+	if atReturn == nil || r.resp == nil {
+		return "", ""
+	}
+	ts := w.tc.c.tokenStore
+	tokenLease := func(tok, what string) (string, string) {
+		te, err := ts.Lookup(namespace.RootContext(context.Background()), tok)
+		if err != nil || te == nil || te.Type == logical.TokenTypeBatch {
+			return "", ""
+		}
+		pfx, ns := w.prefixOfNSID(te.NamespaceID)
+		if ns == nil {
+			return "", ""
+		}
+		salted, err := ts.SaltID(namespace.ContextWithNamespace(context.Background(), ns), te.ID)
+		if err != nil {
+			return "", ""
+		}
+		nsID := ""
+		if ns.ID != namespace.RootNamespaceID {
+			nsID = ns.ID
+		}
+		if c06LeaseRecordOfToken(atReturn, pfx, salted, nsID) == "" {
+			return "lease-not-durable-at-return", fmt.Sprintf("the client received %s while its lease record was not in storage yet (a write of the request was still in flight when the request returned)", what)
+		}
+		return "", ""
+	}
+	if r.resp.WrapInfo != nil && r.resp.WrapInfo.Token != "" {
+		return tokenLease(r.resp.WrapInfo.Token, "a wrapping token")
+	}
+	if r.resp.Secret != nil && r.resp.Secret.LeaseID != "" {
+		_, nsID := namespace.SplitIDFromString(r.resp.Secret.LeaseID)
+		pfx, ns := w.prefixOfNSID(nsID)
+		if ns != nil && !atReturn[pfx+c06PfxLease+r.resp.Secret.LeaseID] {
+			return "lease-not-durable-at-return", fmt.Sprintf("the client received a secret with lease id %s while the lease record was not in storage yet (a write of the request was still in flight when the request returned)", r.resp.Secret.LeaseID)
+		}
+	}
+	if r.resp.Auth != nil && r.resp.Auth.ClientToken != "" && r.resp.Auth.TokenType != logical.TokenTypeBatch {
+		return tokenLease(r.resp.Auth.ClientToken, "a service token")
+	}
+	return "", ""
 }
